@@ -348,7 +348,7 @@ func init() {
 		Body: func(x *vs.X) {
 			const T = time.Minute
 			t0 := []time.Duration{0, T / 4, T / 2, T/2 - 1, 3 * T / 4}[vs.Choose("t0", 5)]
-			refresh := []time.Duration{-1, T / 2, T - 1, T/2 + 1}[vs.Choose("refresh", 4)]
+			refresh := []time.Duration{-1, T / 2, T - 1, T/2 + 1, 2, 500 * time.Millisecond, 999 * time.Millisecond, T / 4}[vs.Choose("refresh", 8)]
 			m := NewClientMap(T)
 			a, b := fakeAddr("a"), fakeAddr("b")
 			vs.Sleep(t0)
